@@ -85,8 +85,8 @@ fn pair_scripts() -> Vec<(Vec<(usize, Step)>, usize)> {
         (sequential(&[vec![link("o"), act(&["@seto(5)"]), act(&["@clro"])]]), 1),
         (sequential(&[vec![sync("o"), act(&["@clro"]), act(&["@seto(6)", "@setv(1)"]), act(&["@clro"])]]), 1),
         // map entries whose value has the empty encoding (None), then a restart
-        (sequential(&[vec![link("om"), act(&["@updom{k:1,v:5}", "@nilom(2)"]), act(&["@nilom(1)", "@updom{k:3,v:4}"])]]), 1),
-        (sequential(&[vec![sync("om"), act(&["@nilom(1)"]), act(&["@nilom(2)", "@remom(1)"]), act(&["@updom{k:2,v:2}", "@nilom(3)"])]]), 1),
+        (sequential(&[vec![link("O"), act(&["@updom{k:1,v:5}", "@nilom(2)"]), act(&["@nilom(1)", "@updom{k:3,v:4}"])]]), 1),
+        (sequential(&[vec![sync("O"), act(&["@nilom(1)"]), act(&["@nilom(2)", "@remom(1)"]), act(&["@updom{k:2,v:2}", "@nilom(3)"])]]), 1),
         (sequential(&[vec![sync("w"), cmd("w", "5"), act(&["@setws(6)", "@setvs(6)"]), cmd("w", "6"), cmd("v", "6"), act(&["@setws(5)"]), cmd("w", "5")]]), 1),
     ]
 }
@@ -176,6 +176,18 @@ fn main() {
                 let mut c = b.clone();
                 c.crash_at = Some(k);
                 cut_cfgs.push(c);
+            }
+            // ... and on the real in-memory store (the pair agent has two items whose names are equal
+            // up to case: a store that folds names would alias them)
+            if (cap, budget, mode) == grid[0] {
+                let mut m = b.clone();
+                m.store = StoreMode::RecordingOverMem { abandoned: false };
+                sched_cfgs.push(m.clone());
+                for k in (1..=len).step_by(if quick { 3 } else { 1 }) {
+                    let mut c = m.clone();
+                    c.crash_at = Some(k);
+                    cut_cfgs.push(c);
+                }
             }
         }
     }
